@@ -288,7 +288,11 @@ pub fn types(ctx: &Ctx) {
         3 => proto.push(crate::cat::rec("timeStamp", ty.clone())),
         _ => proto.push(crate::cat::ext_rec("ext", "attr", ty.clone())),
     }
-    let p = Program { guid: "g".into(), ops: vec![Op::Ext("ext".into(), "http://example.com/ext".into()), Op::Cloud(cloud(proto.clone(), 2, 3))], ..Default::default() };
+    // the caller may remove the default limits explicitly: then none are stored
+    let cleared = ctx.pick("limits-cleared", 2) == 1;
+    let mut cl = cloud(proto.clone(), 2, 3);
+    cl.clear_limits = (cleared, cleared);
+    let p = Program { guid: "g".into(), ops: vec![Op::Ext("ext".into(), "http://example.com/ext".into()), Op::Cloud(cl)], ..Default::default() };
     if let Some((_, rb)) = roundtrip(ctx, &p, P) {
         // limits nobody set are the declared ranges of the attribute types, per channel
         let got = &rb.scene.clouds[0].meta;
@@ -296,7 +300,7 @@ pub fn types(ctx: &Ctx) {
         let same = |a: &Option<m::LVal>, b: &Option<m::LVal>| a.map(|v| v.key()) == b.map(|v| v.key());
         if let (Some(r), Some(g), Some(b)) = (tl("colorRed"), tl("colorGreen"), tl("colorBlue")) {
             let all = [r.0, r.1, g.0, g.1, b.0, b.1];
-            let exp = if all.iter().all(|x| x.is_some()) { Some(all) } else { None };
+            let exp = if all.iter().all(|x| x.is_some()) && !cleared { Some(all) } else { None };
             let ok = match (&exp, &got.color_limits) {
                 (None, None) => true,
                 (Some(e), Some(x)) => e.iter().zip(x.iter()).all(|(a, b)| same(a, b)),
@@ -308,7 +312,7 @@ pub fn types(ctx: &Ctx) {
             }
         }
         if let Some(i) = tl("intensity") {
-            let exp = if i.0.is_some() && i.1.is_some() { Some([i.0, i.1]) } else { None };
+            let exp = if i.0.is_some() && i.1.is_some() && !cleared { Some([i.0, i.1]) } else { None };
             let ok = match (&exp, &got.intensity_limits) {
                 (None, None) => true,
                 (Some(e), Some(x)) => same(&e[0], &x[0]) && same(&e[1], &x[1]),
